@@ -224,7 +224,12 @@ class RemoveUnusedOpsetsPass(ir.passes.InPlacePass):
     ) -> bool:
         for node in ir.traversal.RecursiveGraphIterator(graph_like):
             used_domains.add(node.domain)
-        unused = set(graph_like.opset_imports) - used_domains
+        unused = {
+            domain
+            for domain in graph_like.opset_imports
+            # Nodes and functions spell the default domain "", an opset import may use its alias
+            if ("" if domain == "ai.onnx" else domain) not in used_domains
+        }
         for domain in unused:
             del graph_like.opset_imports[domain]
         return bool(unused)
